@@ -304,6 +304,22 @@ theorem iterator_never_repeats (q : Quals) (ops : List ItOp) (z : Str × Str) :
     (yielded (itRun q ops).1 ++ (itRun q ops).2).count z ≤ q.count z :=
   itRun_count_le q ops z
 
+/-- … hence on a collection satisfying the invariant (every reachable one) no pair — and, the keys being distinct, no
+key — is ever yielded twice by one iterator, in whatever order `next`, `next_back`, `nth`, `nth_back` are called -/
+theorem iterator_yields_each_pair_once (q : Quals) (hq : QInv q) (ops : List ItOp) :
+    (yielded (itRun q ops).1).Nodup := by
+  have hnd : q.Nodup := by
+    refine List.Pairwise.imp ?_ hq.1
+    intro a b hab heq
+    rw [heq] at hab
+    exact cmpStr_lt_irrefl _ hab
+  rw [List.nodup_iff_count]
+  intro z
+  have h1 := itRun_count_le q ops z
+  have h2 : q.count z ≤ 1 := List.nodup_iff_count.1 hnd z
+  simp only [List.count_append] at h1
+  omega
+
 /-- what is left in an iterator is always a contiguous part of the collection (so it is still ascending), and
 whatever one call yields is one of the pairs it dropped -/
 theorem iterator_window (rem : Quals) (op : ItOp) :
